@@ -4,7 +4,7 @@ From Verif Require Import Base.Lex SnapRead.Model SnapRead.ModelRead SnapRead.Pr
   SnapRead.ProofsCache SnapRead.ProofsRead SnapRead.ProofsTerm SnapRead.ProofsMove SnapRead.ProofsTop.
 
 (* For every truth (ascending keys), every snapshot ts, all bounds (empty = unbounded; even lo > hi),
-   every batch size (0 and 1 are replaced by the default as in newScanner), key-only or not, EVERY
+   every batch size (0 and 1 are replaced by the default, sizes above 2^32-1 are capped, as in newScanner), key-only or not, EVERY
    sequence of region layouts (one per getData call, split points drawn from a finite set P) and
    EVERY sequence of lock sets met by the scan requests: the scan terminates within
    |P| + |T| + 2 getData calls without panic and its concatenated output is exactly
@@ -15,7 +15,6 @@ From Verif Require Import Base.Lex SnapRead.Model SnapRead.ModelRead SnapRead.Pr
 Theorem C05_scan_complete :
   forall (T : truth) (ts : N) (lo hi : key) (B : nat) (ko rv : bool)
          (lay : nat -> layout) (lk : nat -> list key) (P : list key),
-    (B < 2 ^ 32)%nat ->     (* the Limit field of the scan request is uint32: see docs, batch sizes above are a defect *)
     tsorted T -> (forall i, incl (lay i) P) ->
     (rv = true -> forall e, In e T -> fst e <> []) ->
     exists out,
